@@ -21,6 +21,10 @@ def repo_state():
         return {'repo': repo, 'error': str(e)}
 
 
+def sc_of(rec):
+    return (rec.get('extra') or {}).get('expanded') or rec.get('scenario')
+
+
 def vclass(rec):
     return (rec.get('clause'), rec.get('key'))
 
@@ -63,12 +67,15 @@ def run_check(prop, tier, verif_seed, workers=16, runs=None, out=sys.stdout, wri
     known = {}
     unknown = {}
     for r in viol:
-        e = findings.match(prop.ID, r.get('scenario'), r, entries)
+        e = findings.match(prop.ID, sc_of(r), r, entries)
         if e is not None:
             known.setdefault(e['id'], [e, 0, r])[1] += 1
         else:
             unknown.setdefault(vclass(r), []).append(r)
 
+    if os.environ.get('DFSIM_CLASSES'):
+        for cls, rs_ in sorted(unknown.items(), key=lambda kv: -len(kv[1])):
+            print('CLASS %s/%s x%d e.g. i=%d: %s' % (cls[0], cls[1], len(rs_), rs_[0]['i'], (rs_[0].get('message') or '')[:700].replace('\n', ' ')), file=out)
     reported = []
     shrink_stats = []
     budget = 40.0 if tier == 'quick' else 240.0
